@@ -278,6 +278,9 @@ package collection
 //@   ensures [cache-only-on-success] !ret(c.doGet, 1) && ret(fetch, 1) != nil ==> calls(Set) == 0 && result1 == ret(fetch, 1) && result0 == nil
 //@   ensures [cache-on-success] !ret(c.doGet, 1) && ret(fetch, 1) == nil ==> calls(c.Set, key, ret(fetch, 0)) == 1 && result0 == ret(fetch, 0) && result1 == nil
 //@   ensures [double-check] calls(c.doGet, key) == 1
+// a fetch that panics produced no result: nothing is cached (the panic goes on to the caller)
+//@   may-panic fetch
+//@   panic-ensures [nothing-cached-when-fetch-panics] calls(Set) == 0
 
 //@ func (*Cache).Take
 //@   prop C17
